@@ -68,6 +68,11 @@ func GetLengthLimitedID(fixedPrefix, suffix string, maxLength int) string {
 			log.Panicf("GetLengthLimitedID: maxLength %d is too small for prefix %q (length %d); "+
 				"need at least %d", maxLength, fixedPrefix, prefixLen, prefixLen+2)
 		}
+		if charsLeftForHash > len(hash) {
+			// The encoded hash is shorter than the space available (for example, nftables allows
+			// 256 character names); use the whole hash rather than slicing beyond its end.
+			charsLeftForHash = len(hash)
+		}
 		return fixedPrefix + shortenedPrefix + hash[0:charsLeftForHash]
 	}
 	// No need to shorten.
